@@ -5,31 +5,70 @@ package main
 import (
 	"fmt"
 	"os"
+	"runtime/debug"
+	"strings"
 
 	"verif/harness/internal/hx"
 	"verif/harness/internal/prng"
 )
 
+const gasInit = 5200000000000000
+
 func main() {
-	if len(os.Args) > 1 && os.Args[1] == "probe" {
-		probe()
-		return
-	}
 	f := hx.ParseFlags()
 	o := hx.NewOut(f.Out)
 	defer o.Close()
-	_ = prng.ForCase
+	n := f.N(20, 400)
+	for k := 0; k < n; k++ {
+		if !f.Want(k) {
+			continue
+		}
+		runCase(o, f, k)
+	}
 }
 
-func probe() {
+func runCase(o *hx.Out, f *hx.Flags, k int) {
+	r := prng.ForCase(f.Seed, k)
 	t := &tb{}
 	defer t.done()
-	r := prng.ForCase(1, 0)
-	w := newWorld(t, r, 3, 2, 3, 1)
-	fmt.Println(w.line(w.dump()))
-	wc := walletContract(w.valSigner.ScriptHash(), "W0")
-	h := w.e.DeployContract(t, wc, nil)
-	aer := w.e.GetTxExecResult(t, h)
-	fmt.Println("deploy", aer.VMState, aer.FaultException)
-	fmt.Println(w.line(w.dump()))
+	defer func() {
+		if e := recover(); e != nil {
+			// a problem of the harness itself (neotest require failed, invalid block built):
+			// reported on stderr and counted, never as a finding.
+			o.Count("case:aborted")
+			fmt.Fprintf(os.Stderr, "case %d aborted: %v\n", k, e)
+			if os.Getenv("TOKENS_DEBUG") != "" {
+				debug.PrintStack()
+			}
+		}
+	}()
+	C := 1 + r.Weighted([]int{2, 3, 4, 3, 2})
+	V := 1 + r.Intn(min(C, 3))
+	nUsers := r.Range(3, 6)
+	w := newWorld(t, r, C, V, nUsers, r.Range(0, 2))
+	o.Case(k)
+	attrFee := w.bc.GetNotaryServiceFeePerKey()
+	o.Line(fmt.Sprintf("init %d %d %d %d %d %d %d %d", w.aid(w.notaryH), w.aid(w.neoH), C, V, attrFee, w.aid(w.treasuryH), w.aid(w.valSigner.ScriptHash()), gasInit), "ok")
+	// block 0: PostPersist of the genesis block
+	st := w.dump()
+	var ms []string
+	for _, c := range st.committee {
+		ms = append(ms, fmt.Sprintf("%d:%d:%s", w.pid(c.pub), w.aid(c.pub.GetScriptHash()), c.votes))
+	}
+	o.Line("postpersist "+strings.Join(ms, ","), "ok")
+	o.Line("endblock", w.line(st))
+	w.oracle(o, k, 0, st, st, nil)
+
+	w.setup(o, k)
+	nb := r.Range(30, 50)
+	if f.Tier == "thorough" {
+		nb = r.Range(40, 120)
+	}
+	for i := 0; i < nb; i++ {
+		w.randomBlock(o, k)
+	}
+	o.Seen(fmt.Sprintf("%d/%d", f.Seed, k))
+	if k < 2 {
+		o.Sample(fmt.Sprintf("case %d: committee %d validators %d users %d blocks %d; final %s", k, C, V, nUsers, nb, w.line(w.dump())))
+	}
 }
